@@ -43,7 +43,7 @@ var c37Assumptions = []string{
 	"the second branch and the independent database receive exactly the same statement sequence (including the parent table of the foreign key): tag collision resolution against tables that exist on one side only is by design and not asserted",
 	"FULLTEXT, SPATIAL and VECTOR indexes are not generated",
 	"tables hold no rows (tags and serialization do not depend on data)",
-	"while finding " + c37FindCadence + " is listed open, in a program that re-adds a dropped column with NOT NULL or a DEFAULT (table-rewrite path) the tags of those columns are left out of the tag comparison and the schema/table hashes are not compared (cases where they differ are counted as excluded_known); re-adds of nullable columns without default are compared in full; the pinned sub-test reports it",
+	"while finding " + c37FindCadence + " is listed open, in a program that re-adds a dropped column with NOT NULL or a DEFAULT (table-rewrite path) the tags of those columns are left out of the tag comparison and the schema/table hashes are not compared (cases where they differ are counted as excluded_known, and in those cases dolt_merge answering \"table with same name 't' added in 2 commits can't be merged\" is accepted and counted, because the two branches then hold non-identical independently added tables); re-adds of nullable columns without default are compared in full; the pinned sub-test reports it",
 	"while finding " + c37FindIdxComment + " is listed open, index comments contain no single quote (replaced comments are counted as excluded_known); the pinned sub-test reports it",
 	"the foreign key column is never part of a generated index (dolt lets DROP INDEX remove the index backing a foreign key and then refuses to commit)",
 	"while finding " + c37FindVirtualAdd + " is listed open, CHECK and table COMMENT fragments are not expected in SHOW CREATE TABLE once the table has a VIRTUAL generated column (skipped expectations are counted as excluded_known); the pinned sub-test reports it",
@@ -850,6 +850,10 @@ func c37GenAlter(rt *rapid.T, m *c37Model) c37Stmt {
 						if m.Cols[i].Name == c.Name {
 							if newName != c.Name {
 								m.Cols[i].Prev = c.Name
+								if m.RewriteReadd[c.Name] {
+									delete(m.RewriteReadd, c.Name)
+									m.RewriteReadd[newName] = true
+								}
 							}
 							m.Cols[i].Name = newName
 							m.Cols[i].Fsp = sp.Col.Fsp
@@ -883,6 +887,10 @@ func c37GenAlter(rt *rapid.T, m *c37Model) c37Stmt {
 					if m.Cols[i].Name == c.Name {
 						m.Cols[i].Prev = c.Name
 						m.Cols[i].Name = newName
+						if m.RewriteReadd[c.Name] {
+							delete(m.RewriteReadd, c.Name)
+							m.RewriteReadd[newName] = true
+						}
 					}
 				}
 			}}
@@ -1242,6 +1250,7 @@ func TestVerif_C37(t *testing.T) {
 		sB.MustExec(rt, "CREATE TABLE p (id INT PRIMARY KEY)")
 		sB.MustExec(rt, "CALL dolt_commit('-Am','base')")
 		replay(sB, "in an independent database", func(int) bool { return true })
+		cadenceDiffer := false
 		for _, o := range []struct {
 			se         *vsql.Session
 			db, branch string
@@ -1276,6 +1285,9 @@ func TestVerif_C37(t *testing.T) {
 			if cadenceGate {
 				if strings.Join(p.Tags, ",") != strings.Join(p1.Tags, ",") || p.Hash != p1.Hash {
 					c37Excluded++
+					if o.branch == "b2" {
+						cadenceDiffer = true
+					}
 				}
 				continue
 			}
@@ -1293,6 +1305,13 @@ func TestVerif_C37(t *testing.T) {
 		s1.MustExec(rt, "CALL dolt_commit('-Am','ddl on b1')")
 		s2.MustExec(rt, "CALL dolt_commit('-A','--allow-empty','-m','ddl on b2')")
 		mr, err := s1.Query("CALL dolt_merge('b2')")
+		if err != nil && cadenceDiffer && strings.Contains(err.Error(), "added in 2 commits can't be merged") {
+			// consequence of the open cadence finding: the two branches added "the same" table with different
+			// tags, and dolt refuses to merge two independently added tables that are not identical
+			c37Excluded++
+			recTags.Class("excluded:merge_refused_after_cadence_dependent_tags", 1)
+			err, mr = nil, &vsql.Rows{Data: [][]string{{"", "", "0"}}}
+		}
 		if err != nil {
 			rt.Fatalf("C37 (3): merging two branches that ran the same DDL failed: %v\n--- program ---\n%s", err, prog)
 		}
